@@ -4,7 +4,7 @@ PROP = dict(
     model="coq/Models/AccPool.v (the two hook families as recomputations from the values the call site passes; fresh vs stale argument and missing hook are explicit)",
     coq_deps=["Base/Res.v", "Models/AccPool.v", "Proofs/AccPoolProofs.v", "Run/AccPoolRun.v", "Props/C11.v"],
     rule="the shared ledger histories (see C01) on the perpetual-enabled oracle pool: swaps/joins/exits (amm hooks) interleaved with perpetual opens (long/short, uusdc/uatom "
-         "collateral), consolidations, closes, third-party close-positions requests that settle interest and funding without closing, over long block gaps; per step and denom "
+         "collateral), consolidations, closes, third-party close-positions requests that settle interest and funding without closing, over long block gaps; two of three histories on a market with a SECOND perpetual-enabled oracle pool (uusdc/aweth, 18 decimals); per step and (pool, denom) "
          "the observed (reserve, liabilities, custody) are fed to the Coq model, whose predicted TotalTokens/NonAmmPoolTokens must equal the keepers'; non-trivial = at least one successful tx",
     trusted_base=["which hook a code path fires is not observable; the model applies the post-fix discipline (fixed_step) and the comparison shows the implementation follows it",
                   "EnableTakeProfitCustodyLiabilities is false (default); with it on the formula has two more terms"],
